@@ -319,7 +319,13 @@ def _run_uniform(h, cfg, eng, EoN, flow):
     for c, arr, want in (('S', S, (1 - rho) * N), ('I', I, rho * N), ('R', R, 0)):
         h.require('row0', EQ(arr[0], want), {'series': c, 'got': show(arr[0]), 'want': show(want)})
     if 'discrete' not in entry and flow.calls:
-        h.require('integrator-starts-at-tmin', EQ(list(flow.calls[0].times)[0], tmin), {'started_at': show(list(flow.calls[0].times)[0])})
+        call = flow.calls[0]
+        h.require('integrator-starts-at-tmin', EQ(list(call.times)[0], tmin), {'started_at': show(list(call.times)[0])})
+        st0, f0 = h.call(call.dfunc, np.array(list(call.X0), dtype=object), 0, *call.args)
+        if st0 == 'exc':
+            h.fail('rhs-defined-at-X0:' + type(f0).__name__, {'exception': repr(f0)[:200]})
+            return None
+        h.require('rhs-defined-at-X0', True)
     prover = odex.IdProver(list(eng.pc))
     for i in range(len(t)):
         ok, m = prover.equal(S[i] + I[i] + R[i], N)
